@@ -11,9 +11,10 @@ const (
 	// META_LEASESET_MIN_SIZE is the absolute minimum size for a MetaLeaseSet structure.
 	// This assumes: Destination (387 bytes) + published (4 bytes) + expires (2 bytes) +
 	// flags (2 bytes) + options (2 bytes) + num_entries (1 byte) +
-	// 1 entry (41 bytes minimum) + signature (64 bytes EdDSA)
-	// = 387 + 4 + 2 + 2 + 2 + 1 + 41 + 64 = 505 bytes minimum
-	META_LEASESET_MIN_SIZE = 505
+	// 1 entry (META_LEASESET_ENTRY_MIN_SIZE, 40 bytes) + signature (40 bytes for
+	// DSA_SHA1, the shortest signature type; 64 bytes for EdDSA)
+	// = 387 + 4 + 2 + 2 + 2 + 1 + 40 + 40 = 478 bytes minimum
+	META_LEASESET_MIN_SIZE = 478
 
 	// META_LEASESET_HEADER_MIN_SIZE is the minimum size of MetaLeaseSet header without offline signature.
 	// Destination (387 bytes) + published (4 bytes) + expires (2 bytes) + flags (2 bytes)
